@@ -1,7 +1,7 @@
 // C20 (ABI layer) facts:
-//  * the argument types of claimAsset / claimMessage in the two contract bindings that bridgesync/downloader.go imports
-//    (read from the ABI JSON inside the binding source of the module version pinned by /repo/go.mod, in the module cache);
-//  * the `data[k].(T)` reads of decodeEtrogCalldata / decodePreEtrogCalldata in bridgesync/processor.go, in source order.
+//   - the argument types of claimAsset / claimMessage in the two contract bindings that bridgesync/downloader.go imports
+//     (read from the ABI JSON inside the binding source of the module version pinned by /repo/go.mod, in the module cache);
+//   - the `data[k].(T)` reads of decodeEtrogCalldata / decodePreEtrogCalldata in bridgesync/processor.go, in source order.
 package main
 
 import (
